@@ -60,7 +60,8 @@ uint8_t * jls_mrb_alloc(struct jls_mrb_s * self, uint32_t size) {
     uint32_t head = self->head;
     uint32_t tail = self->tail;
 
-    if (size > self->buf_size) {
+    // each message also needs its 4-byte size prefix and room for the 4-byte wrap marker
+    if (((uint64_t) size + 8) > self->buf_size) {
         JLS_LOGE("jls_mrb_alloc too big");
         return NULL;
     }
